@@ -31,9 +31,11 @@ import (
 	"github.com/tsawler/tabula/text"
 	"pgregory.net/rapid"
 
+	"verif/harness/gen/epubw"
 	"verif/harness/gen/frag"
 	"verif/harness/gen/fragpdf"
 	"verif/harness/gen/pdfw"
+	"verif/harness/gen/pptxw"
 	"verif/harness/gen/rawpdf"
 	"verif/harness/iso"
 	"verif/harness/vr"
@@ -42,7 +44,7 @@ import (
 // ---------------------------------------------------------------------------
 // documents, addressed by a small integer so that a case is replayable
 
-const nDocs = 48
+const nDocs = 52
 
 // Documents numbered dynBase and above are made on demand, each with private operators of its own (inside a
 // BX/EX compatibility section, ISO 32000-1 7.8.2, Table 32): the first parse of each is the first time the process
@@ -152,6 +154,46 @@ func getDoc(i int) *docSpec {
 	switch {
 	case i >= dynBase:
 		d = &docSpec{kind: "pdf", ext: ".pdf", data: dynDoc(i)}
+	case i >= 50:
+		// packages of the two container formats the repository has no sample of: an EPUB (50) and a presentation (51)
+		if i == 50 {
+			b := epubw.Book{Version: "3.0", OPFPath: "OEBPS/content.opf", Title: "Pool book", Creator: "A", Language: "en", Identifier: "urn:uuid:c03"}
+			for k := 0; k < 3; k++ {
+				b.Items = append(b.Items, epubw.Item{ID: fmt.Sprintf("ch%d", k), Path: fmt.Sprintf("ch%d.xhtml", k),
+					Chapter: epubw.Chapter{Heading: fmt.Sprintf("Chapter %d", k+1), Paras: []string{fmt.Sprintf("Paragraph one of chapter %d.", k+1), "Second paragraph."}}})
+				b.Spine = append(b.Spine, epubw.SpineRef{Item: k})
+			}
+			b.Items = append(b.Items, epubw.Item{ID: "nav", Path: "nav.xhtml", Role: "nav"})
+			data, err := b.Bytes()
+			if err != nil {
+				panic("INFRA: " + err.Error())
+			}
+			d = &docSpec{kind: "file", ext: ".epub", data: data}
+		} else {
+			dk := pptxw.Deck{Slides: []pptxw.Slide{{Title: "First slide", Body: []pptxw.Para{{Text: "point one", Bullet: "char"}, {Text: "point two", Bullet: "char"}}},
+				{Title: "Second slide", Body: []pptxw.Para{{Text: "closing words", Bullet: "none"}}}}}
+			data, err := dk.Bytes()
+			if err != nil {
+				panic("INFRA: " + err.Error())
+			}
+			d = &docSpec{kind: "file", ext: ".pptx", data: data}
+		}
+	case i >= 48:
+		// a ToUnicode CMap whose bfrange entries overlap in several ways (48: scalar targets, 49: with bfchar entries
+		// for some of the codes as well): whichever entry the library lets win, it is the same one every time
+		cm := "/CIDInit /ProcSet findresource begin\n12 dict begin\nbegincmap\n/CMapName /Overlap def\n/CMapType 2 def\n1 begincodespacerange\n<00> <FF>\nendcodespacerange\n"
+		if i == 49 {
+			cm += "3 beginbfchar\n<41> <0058>\n<42> <0059>\n<7A> <005A>\nendbfchar\n"
+		}
+		cm += "7 beginbfrange\n<41> <5A> <0391>\n<40> <5B> <0400>\n<30> <7A> <0100>\n<20> <7E> <1E00>\n<41> <43> <2460>\n<10> <FE> <2100>\n<61> <7A> <03B1>\nendbfrange\nendcmap\nCMapName currentdict /CMap defineresource pop\nend\nend\n"
+		d = &docSpec{kind: "pdf", ext: ".pdf", data: rawpdf.Build(map[int]string{
+			1: "<< /Type /Catalog /Pages 2 0 R >>",
+			2: "<< /Type /Pages /Kids [3 0 R] /Count 1 /MediaBox [0 0 612 792] >>",
+			3: "<< /Type /Page /Parent 2 0 R /Resources << /Font << /F1 5 0 R >> >> /Contents 7 0 R >>",
+			5: "<< /Type /Font /Subtype /Type1 /BaseFont /Helvetica /ToUnicode 6 0 R >>",
+			6: rawpdf.Stream("", cm),
+			7: rawpdf.Stream("", "BT /F1 12 Tf 72 700 Td (ABC XYZ) Tj 0 -14 Td (019 az @[) Tj ET"),
+		}, 1)}
 	case i >= 46:
 		// the content of page 2 sits behind two filters and the second one fails (46: the unsupported LZWDecode, 47: a
 		// Flate layer that is no zlib data); what the first filter yields is itself a readable content stream. A reader
@@ -267,7 +309,7 @@ func docPath(i int) string {
 	return p
 }
 
-var ops = []string{"text", "markdown", "jsonl", "csv", "document", "contentstream", "sharedreader", "chunkops", "htmlnav", "tables", "extractorreuse", "coldburst"}
+var ops = []string{"text", "markdown", "jsonl", "csv", "document", "contentstream", "sharedreader", "chunkops", "htmlnav", "tables", "extractorreuse", "coldburst", "facadereuse"}
 
 // runOp performs one extraction and returns a canonical byte string of its result.
 func runOp(doc int, op string) string {
@@ -464,6 +506,34 @@ func runOp(doc int, op string) string {
 		close(start)
 		wg.Wait()
 		return strings.Join(out, "\n====\n")
+	case "facadereuse":
+		// one tabula.Extractor value asked several times, and extractors derived from it after it has been used:
+		// every answer is the one a fresh extractor gives ("extraction is a pure function of the document")
+		var sb strings.Builder
+		func() {
+			defer func() {
+				if r := recover(); r != nil {
+					fmt.Fprintf(&sb, "\npanic=%v equal=false", r)
+				}
+			}()
+			e := open()
+			t1, _, err1 := e.Text()
+			t2, _, err2 := e.Text()
+			m1, _, errm := e.ToMarkdown()
+			t3, _, err3 := e.ExcludeHeaders().Text()
+			n, errn := e.PageCount()
+			e.Close()
+			t4, _, err4 := e.Text()
+			ft, _, ferr := open().Text()
+			fm, _, fmerr := open().ToMarkdown()
+			fx, _, fxerr := open().ExcludeHeaders().Text()
+			fn, fnerr := open().PageCount()
+			same := func(a, b string, ea, eb error) bool { return a == b && fmt.Sprint(ea) == fmt.Sprint(eb) }
+			fmt.Fprintf(&sb, "text err=%v len=%d pages=%d\nsecond Text: equal=%v, ToMarkdown after Text: equal=%v, derived ExcludeHeaders().Text(): equal=%v, PageCount: equal=%v, Text after Close: equal=%v",
+				err1, len(t1), n, same(t2, ft, err2, ferr) && same(t1, ft, err1, ferr), same(m1, fm, errm, fmerr), same(t3, fx, err3, fxerr),
+				n == fn && fmt.Sprint(errn) == fmt.Sprint(fnerr), same(t4, ft, err4, ferr))
+		}()
+		return sb.String()
 	case "extractorreuse":
 		// one text.Extractor used for two content streams in turn: what it returned for the first one stays as it
 		// was, and the second answer is the one a fresh extractor gives
@@ -622,6 +692,9 @@ func compare(where string, doc int, op, got string) error {
 	}
 	if op == "extractorreuse" && strings.Contains(got, "equal=false") {
 		return fmt.Errorf("%s: a text.Extractor used for a second content stream: %s", where, got)
+	}
+	if op == "facadereuse" && strings.Contains(got, "equal=false") {
+		return fmt.Errorf("%s: one tabula.Extractor of document %d asked again (or derived from after use) answers differently from a fresh one: %.400s", where, doc, got)
 	}
 	if op == "htmlnav" && strings.Contains(got, "equal=false") {
 		return fmt.Errorf("%s: one htmldoc.Reader of document %d gives different answers when asked again: %.300s", where, doc, got[strings.Index(got, "one reader:"):])
